@@ -18,13 +18,23 @@ def _pool_init():
 
 
 def _run(task):
-    from . import worker
+    """returns a JSON string (always picklable, whatever a harness put into its details)"""
+    try:
+        if task.get("kind") == "re":
+            from smt import glob_regex
 
-    if task.get("kind") == "re":
-        from smt import glob_regex
+            out = glob_regex.run_partition(task)
+        else:
+            from . import worker
 
-        return glob_regex.run_partition(task)
-    return worker.run_partition(task)
+            out = worker.run_partition(task)
+        return json.dumps(out, default=repr)
+    except BaseException as exc:  # never let a worker die silently: the pool would wait forever
+        import traceback
+
+        out = {k: task.get(k) for k in ("obligation", "kind", "module", "body", "cfg", "prefix", "assertions", "twin")}
+        out.update(state="WORKER_ERROR", error=repr(exc) + traceback.format_exc(limit=6), wall_s=0.0)
+        return json.dumps(out, default=repr)
 
 
 def _enum(args):
@@ -146,7 +156,7 @@ def main(argv=None):
         random.Random(seed).shuffle(tasks)
         # longest obligations first helps the tail; keep the seed-shuffle inside equal weights
         tasks.sort(key=lambda t: -t.get("weight", 0))
-        results = pool.map(_run, tasks, chunksize=1)
+        results = [json.loads(r) for r in pool.map(_run, tasks, chunksize=1)]
     finally:
         pool.close()
         pool.join()
